@@ -173,6 +173,20 @@ def to_cel(kind: str, v: Any) -> Any:
         return ct.BytesType(v)
     if kind == "null":
         return None
+    if kind == "json":  # a JSON-like document: null / bool / int / float / str / list / dict with string keys
+        if v is None:
+            return None
+        if isinstance(v, bool):
+            return ct.BoolType(v)
+        if isinstance(v, int):
+            return ct.IntType(v)
+        if isinstance(v, float):
+            return ct.DoubleType(v)
+        if isinstance(v, str):
+            return ct.StringType(v)
+        if isinstance(v, list):
+            return ct.ListType([to_cel("json", i) for i in v])
+        return ct.MapType({ct.StringType(a): to_cel("json", b) for a, b in v.items()})
     if kind == "timestamp":
         return ct.TimestampType(us_to_datetime(v))
     if kind == "duration":
